@@ -64,7 +64,12 @@ def generate(seed, tier="quick"):
             lr.choice(f["tests"])["events"].append({"t": "cmp2", "eid": f"pp{n}", "sites": [a, b], "vals": [["str", lr.choice(UNI)], ["int", lr.randint(0, 3)]]})
     frng = sub(seed, "flags")
     steps = [frng.choice([["create", "fix"], list(CATS), ["fix"], ["create"], ["trim", "update"], ["update"], [c for c in CATS if frng.random() < 0.5]]) for _ in range(frng.choice([1, 1, 2, 3]))]
-    return {"program": prog, "steps": steps, "driver": driver, "fmt": draw_fmt(sub(seed, "fmt")), "clean": sub(seed, "clean").random() < 0.35}
+    fmt = draw_fmt(sub(seed, "fmt"))
+    crng = sub(seed, "crlf-formatter")
+    if any(f.get("header", {}).get("eol") == "crlf" for f in prog["files"]) and crng.random() < 0.5:
+        # a CRLF project whose format-command writes CRLF as well
+        fmt = {"kind": "cmd", "stub": "black-crlf", "mode": {"line_length": crng.choice([40, 88])}}
+    return {"program": prog, "steps": steps, "driver": driver, "fmt": fmt, "clean": sub(seed, "clean").random() < 0.35}
 
 
 def is_clean(text):
